@@ -209,7 +209,10 @@ C05Fails(h, rep, ack, verdict, ver, truncated) ==
                     LET p == CHOOSE q \in badSet : \A r \in badSet : q[1] < r[1] \/ (q[1] = r[1] /\ q[2] <= r[2]) IN
                     {F("set_code", A[p[1]].sets[p[2]].code, D[p[1]].sets[p[2]].want, IF truncated THEN tr ELSE D[p[1]].sets[p[2]].ctx)} ELSE {}
       cGrpCode == IF written /\ nest /\ gOk /\ badGrp # {} THEN
-                    LET i == Min(badGrp) IN {F("group_code", A[i].code, D[i].want, IF truncated THEN tr ELSE D[i].ctx)} ELSE {}
+                    LET i == Min(badGrp)
+                        stale == \E j \in 1..(i - 1) : \E k \in 1..Len(D[j].sets) : ~D[j].sets[k].closed       \* a set of an earlier group never got its SE
+                    IN {F("group_code", A[i].code, D[i].want,
+                          IF truncated THEN tr ELSE IF stale /\ D[i].ctx = "seg_error_outside_set_body" THEN "seg_error_outside_set_body_after_unclosed_set" ELSE D[i].ctx)} ELSE {}
       cTotals == IF written /\ nest /\ sOk /\ badTot # {} THEN
                    LET i == Min(badTot)
                        fld == TotalsField(D[i], A[i])
